@@ -240,6 +240,9 @@ type Obligation struct {
 	Model    string
 	Text     string // the clause text
 	Inputs   map[string]string // symbolic names of function inputs -> smt term (for replay)
+	ex       *Exec
+	cases    []retState
+	Replay   *replayResult
 }
 
 type solverSpec struct {
